@@ -12,7 +12,7 @@ from fiddle._src.experimental import daglish_legacy
 from harness import common, l2, c02
 from harness.common import Failure, Result, Stream, g_list, g_pair, g_nat, g_Z, g_N
 
-COQ_TARGETS = ["theories/C08Check.vo", "theories/Anchors.vo"]
+COQ_TARGETS = ["theories/C08Check.vo"]
 TRUSTED_BASE = ["Python object identity (id) of live objects"]
 ASSUMPTIONS = []
 KNOWN_LEGACY_TEMP = "C08/legacy-memoized-traverse-temporaries"
